@@ -176,6 +176,24 @@ func (e *UserErr) Error() string { return fmt.Sprintf("user error fn=%d exec=%d"
 
 type UserPanic struct{ Fn, Exec int }
 
+// UserPanicE is a panic value that is also an error (what a runtime error or
+// panic(err) produces); bodies alternate between the two kinds.
+type UserPanicE struct{ Fn, Exec int }
+
+func (p *UserPanicE) Error() string {
+	return fmt.Sprintf("user panic (error value) %d/%d", p.Fn, p.Exec)
+}
+
+func userPanicOf(v interface{}) (fn, exec int, ok bool) {
+	switch p := v.(type) {
+	case *UserPanic:
+		return p.Fn, p.Exec, true
+	case *UserPanicE:
+		return p.Fn, p.Exec, true
+	}
+	return 0, 0, false
+}
+
 // ---------- building Go types from the case ----------
 
 var (
@@ -212,7 +230,30 @@ func groupSliceType(ty int, ns int) reflect.Type {
 	if ns == 2 && ty < len(namedSlicesB) {
 		return namedSlicesB[ty]
 	}
-	return reflect.SliceOf(palette[ty])
+	return reflect.SliceOf(tyOf(ty))
+}
+
+// tyOf: the Go type of a model type code.  Codes below len(palette) are the
+// palette; above 31 they are structural, as in the model's GoTypes.tcode:
+// 32+4k = pointer to type k, 33+4k = slice of type k, 35+4k = the declared named slice type NS<k>.
+func tyOf(ty int) reflect.Type {
+	if ty < len(palette) {
+		return palette[ty]
+	}
+	if ty >= 32 {
+		k := (ty - 32) / 4
+		switch (ty - 32) % 4 {
+		case 0:
+			return reflect.PtrTo(tyOf(k))
+		case 1:
+			return reflect.SliceOf(tyOf(k))
+		case 3:
+			if k < len(namedSlices) {
+				return namedSlices[k] // NS<k>: a named slice type with methods (implements I0..I3)
+			}
+		}
+	}
+	panic(fmt.Sprintf("harness: no Go type for code %d", ty))
 }
 
 func nsIf(ns int, cond bool) int {
@@ -225,7 +266,7 @@ func nsIf(ns int, cond bool) int {
 func paramType(p Param) reflect.Type {
 	switch p.K {
 	case "single":
-		return palette[p.Ty]
+		return tyOf(p.Ty)
 	case "group":
 		return groupSliceType(p.Ty, p.NS)
 	case "obj":
@@ -261,12 +302,12 @@ func paramType(p Param) reflect.Type {
 func resultType(r Result, decorator bool) reflect.Type {
 	switch r.K {
 	case "single":
-		return palette[r.Ty]
+		return tyOf(r.Ty)
 	case "group":
 		if r.Flatten || decorator {
 			return groupSliceType(r.Ty, nsIf(r.NS, decorator))
 		}
-		return palette[r.Ty]
+		return tyOf(r.Ty)
 	case "obj":
 		fields := []reflect.StructField{{Name: "Out", Type: outType, Anonymous: true}}
 		for i, f := range r.Fields {
@@ -310,6 +351,19 @@ func atomOf(v reflect.Value) *Atom {
 			return nil
 		}
 		v = v.Elem()
+	}
+	if v.Kind() == reflect.Slice && v.Type().Name() == "" {
+		// a value of type []T (code 33+4k): one element carrying the provenance; nil = absent
+		if v.Len() == 0 {
+			return nil
+		}
+		return atomOf(v.Index(0))
+	}
+	if v.Kind() == reflect.Ptr {
+		if v.IsNil() {
+			return nil
+		}
+		return atomOf(v.Elem())
 	}
 	pg, ok := v.Interface().(provGetter)
 	if !ok {
@@ -357,6 +411,14 @@ func mkValue(t reflect.Type, p *Prov) reflect.Value {
 		// a function declared to return an interface type: box a T15
 		return mkValue(palette[numStructTypes-1], p).Convert(t)
 	}
+	if t.Kind() == reflect.Slice {
+		return reflect.Append(reflect.MakeSlice(t, 0, 1), mkValue(t.Elem(), p))
+	}
+	if t.Kind() == reflect.Ptr {
+		v := reflect.New(t.Elem())
+		v.Elem().Set(mkValue(t.Elem(), p))
+		return v
+	}
 	if t.Kind() == reflect.Map {
 		m := reflect.MakeMap(t)
 		m.SetMapIndex(reflect.ValueOf(p), reflect.Zero(t.Elem()))
@@ -379,7 +441,7 @@ func mkResult(r Result, decorator bool, fn, exec int, lens []int, slot *int) ref
 	case "single":
 		s := *slot
 		*slot++
-		return mkValue(palette[r.Ty], &Prov{fn, exec, s, 0})
+		return mkValue(tyOf(r.Ty), &Prov{fn, exec, s, 0})
 	case "group":
 		s := *slot
 		*slot++
@@ -387,11 +449,11 @@ func mkResult(r Result, decorator bool, fn, exec int, lens []int, slot *int) ref
 			n := lenAt(lens, s)
 			sl := reflect.MakeSlice(groupSliceType(r.Ty, nsIf(r.NS, decorator)), 0, n)
 			for i := 0; i < n; i++ {
-				sl = reflect.Append(sl, mkValue(palette[r.Ty], &Prov{fn, exec, s, i}))
+				sl = reflect.Append(sl, mkValue(tyOf(r.Ty), &Prov{fn, exec, s, i}))
 			}
 			return sl
 		}
-		return mkValue(palette[r.Ty], &Prov{fn, exec, s, 0})
+		return mkValue(tyOf(r.Ty), &Prov{fn, exec, s, 0})
 	case "obj":
 		t := resultType(r, decorator)
 		v := reflect.New(t).Elem()
@@ -469,6 +531,9 @@ func (r *runner) body(f *Fn, role string, args []reflect.Value) []reflect.Value 
 			}
 		}
 		if plan == "panic" {
+			if (f.ID+e)%2 == 0 {
+				panic(&UserPanicE{f.ID, e})
+			}
 			panic(&UserPanic{f.ID, e})
 		}
 		var lens []int
@@ -540,8 +605,8 @@ func rootOf(rc error) *Root {
 		return &Root{K: "user", F: ue.Fn, E: ue.Exec}
 	}
 	if pe, ok := rc.(dig.PanicError); ok {
-		if up, ok := pe.Panic.(*UserPanic); ok {
-			return &Root{K: "panic", F: up.Fn, E: up.Exec}
+		if fn, exec, ok := userPanicOf(pe.Panic); ok {
+			return &Root{K: "panic", F: fn, E: exec}
 		}
 		return &Root{K: "panic", F: -1, E: -1}
 	}
@@ -627,8 +692,8 @@ func sameErr(a, b error) bool {
 func guard(f func() error) (v Verdict) {
 	defer func() {
 		if p := recover(); p != nil {
-			if up, ok := p.(*UserPanic); ok {
-				v = Verdict{V: "panicked", F: up.Fn, E: up.Exec}
+			if fn, exec, ok := userPanicOf(p); ok {
+				v = Verdict{V: "panicked", F: fn, E: exec}
 				return
 			}
 			v = Verdict{V: "digpanic", Msg: fmt.Sprint(p)}
